@@ -80,6 +80,9 @@ def _job(args):
 
 def run_spec(spec, cfg, tier, seed):
     from . import harness as H
+    from . import z3guard
+
+    z3guard.HARD_S, z3guard.DEADLINE = 900.0 * (5 if tier == "thorough" else 1), None  # per-job values are set below for E2 jobs
 
     runner = getattr(spec, "runner", None)
     if spec.kind == "ground":
@@ -91,6 +94,8 @@ def run_spec(spec, cfg, tier, seed):
     # wall-clock solver budgets are sized for a loaded machine (verdicts must not flip when all cores are busy): 3x the nominal
     # per-spec budget in the quick tier, 15x in the thorough tier; a fast query is unaffected by a generous budget
     tmo = spec.timeout_ms * (15 if tier == "thorough" else 3)
+    z3guard.HARD_S = max(90.0, 2.5 * tmo / 1000.0)
+    z3guard.DEADLINE = time.time() + max(180.0, 1.5 * tmo / 1000.0)
     res = H.run_symbolic(spec, cfg, max_paths=spec.max_paths * (8 if tier == "thorough" else 1), solver_timeout_ms=tmo, crosscheck=spec.crosscheck * (4 if tier == "thorough" else 1), seed=seed)
     # fallback search: an obligation the engine could not decide, or a solver model that does not replay, is searched natively
     need = [r for r in res if r.verdict in ("undecided", "error") or (r.verdict == "refuted" and not r.replay_confirmed)]
